@@ -145,6 +145,7 @@ def main():
 
     results = run_deductive(prop, a.tier, a.jobs)
     violations, undecided, errors, known_hits = [], [], [], []
+    xfails = []
     all_obs = []
     for r in results:
         if r.get("error"):
@@ -160,6 +161,11 @@ def main():
     # replay refuted obligations on the real code
     for ob in all_obs:
         if ob["status"] == "PROVED":
+            continue
+        if ob["status"] == "XCHECK":
+            # a sampled input on which the real code violates a clause: either the engine proved something false
+            # (unsound encoding) or the clause was refuted anyway -- reported with the refutation below if so
+            xfails.append(ob)
             continue
         if ob["status"] == "VACUOUS":
             errors.append(f"vacuous path {ob['name']}: {ob.get('reason')}")
@@ -205,6 +211,14 @@ def main():
             else:
                 undecided.append(ob)
 
+    # cross-check failures on paths whose obligations were all proved point at the engine
+    for ob in xfails:
+        path_prefix = ob["name"].rsplit("/", 1)[0]
+        all_proved = all(o["status"] == "PROVED" for o in all_obs if o["name"].startswith(path_prefix + "/") and o["status"] != "XCHECK")
+        if all_proved:
+            errors.append(f"encoding cross-check: {ob['name']}: {ob.get('reason')} although every obligation of the path was proved "
+                          f"(witness {json.dumps(ob.get('witness'), default=str)[:300]})")
+
     # bounded stand-ins / runtime checks
     rt_results = []
     for fn in prop.get("rt", []):
@@ -244,6 +258,7 @@ def main():
         else:
             lean_info = {"checked": False, "note": "lean/Background.lean is re-checked in the thorough tier only"}
 
+    all_obs = [o for o in all_obs if o["status"] != "XCHECK"]
     n_ob = len(all_obs)
     n_proved = sum(1 for o in all_obs if o["status"] == "PROVED")
     wall = time.time() - t0
@@ -278,6 +293,7 @@ def main():
         "solver_time_s": solver_time,
         "paths": sum(r["stats"].get("paths", 0) for r in results),
         "canaries_not_provable": sum(r["stats"].get("canaries", 0) for r in results),
+        "encoding_crosschecks": sum(r["stats"].get("xchecks", 0) for r in results),
         "sigma_theory": {k: sum(r["stats"].get("theory", {}).get(k, 0) for r in results)
                          for k in ("regions", "premise_queries", "facts", "analyses")},
         "not_proved": [{"name": o["name"], "status": o["status"], "reason": o.get("reason"), "n": o.get("n")}
